@@ -1,9 +1,480 @@
-/- C12 — executable model (core Lean only).  Stub. -/
+/-
+C12 — executable model of the life cycle of `Mesh` (mesh.py) and of the lists it drives
+(lists/vertex_list.py, edge_list.py, block_list.py, patch_list.py, face_list.py,
+items/wires/manager.py as far as `grade()` is concerned), as the code is *after* the repairs
+  * `BlockList.grade_blocks` resets every axis before grading (repeated `write()`),
+  * `PatchList.clear` keeps the patch entries (types/settings of `modify_patch` survive),
+  * `Mesh.backport` pairs blocks with `Mesh.assembled` (the operations they were created from).
+
+Abstractions (see notes/C12.md): a point is a *location id* (two corners carry the same id iff they
+are the same point within TOL; the harness keeps distinct points far apart), an operation is
+(identity, 8 location ids, patch names, projections, 12 edge data, count-only chops, cell zone),
+the depot is flat (an entity contributes `entity.operations` in order), every axis of every
+operation carries its own chops (propagation between blocks is M-PROP, C01/C02/C04), the written
+dictionary is a canonical text of the sections vertices/blocks/edges/faces/boundary/defaultPatch/
+mergePatchPairs.  Core Lean only.
+-/
 import CBV.Model.Common
 import CBV.Gen.Tables
 
 namespace CBV.C12
 
-def handle (_op : String) (_args : List String) : Option String := none
+/-! ### data -/
+
+/-- A count-only chop: printed length ratio and cell count (total expansion is 1). -/
+structure Chop where
+  ratio : String
+  count : Nat
+  deriving DecidableEq, Repr
+
+/-- Edge data of an operation: a line (never written) or an arc through a point (printed token). -/
+inductive EdgeData where
+  | line
+  | arc (tok : String)
+  deriving DecidableEq, Repr
+
+structure Op where
+  id : Nat
+  corners : List Nat
+  bottomPatch : Option String
+  topPatch : Option String
+  sidePatches : List (Option String)
+  bottomProj : Option String
+  topProj : Option String
+  sideProj : List (Option String)
+  cornerProj : List (List String)
+  bottomEdges : List EdgeData
+  topEdges : List EdgeData
+  sideEdges : List EdgeData
+  chops : List (List Chop)
+  zone : String
+  deriving DecidableEq, Repr
+
+/-- `Vertex` + its `DuplicatedEntry`: location, `projected_to`, sorted slave patches. -/
+structure Vtx where
+  loc : Nat
+  proj : List String
+  slaves : List String
+  deriving DecidableEq, Repr
+
+/-- `Block`: the operation it was made from (ghost), its 8 vertex indices, the chops per axis, the cell
+    zone and the grading state: axis-level specification and the four wire specifications per axis. -/
+structure Block where
+  opId : Nat
+  verts : List Nat
+  chops : List (List Chop)
+  zone : String
+  aspec : List (List Chop)
+  wspec : List (List (List Chop))
+  deriving DecidableEq, Repr
+
+structure Edge where
+  v1 : Nat
+  v2 : Nat
+  tok : String
+  deriving DecidableEq, Repr
+
+structure Patch where
+  name : String
+  sides : List (List Nat)
+  kind : String
+  settings : List String
+  deriving DecidableEq, Repr
+
+structure PFace where
+  verts : List Nat
+  label : String
+  deriving DecidableEq, Repr
+
+/-- what `assemble()` fills and `clear()` empties: the five lists and `Mesh.assembled` -/
+structure Lists where
+  assembled : List Nat := []
+  verts : List Vtx := []
+  blocks : List Block := []
+  edges : List Edge := []
+  faces : List PFace := []
+  patches : List Patch := []
+  deriving DecidableEq, Repr
+
+structure Mesh where
+  depot : List Op := []
+  deleted : List Nat := []
+  lists : Lists := {}
+  modified : List String := []
+  dflt : Option (String × String) := none
+  merged : List (String × String) := []
+  deriving DecidableEq, Repr
+
+/-! ### vertex list -/
+
+/-- `VertexList.find_duplicated`: the first entry at the same place with the same slave patches. -/
+def vfind (loc : Nat) (sl : List String) : List Vtx → Option Nat
+  | [] => none
+  | v :: vs => if v.loc = loc ∧ v.slaves = sl then some 0 else (vfind loc sl vs).map (· + 1)
+
+/-- `VertexList.add(point, slave_patches)` (the list branch, the only one `Mesh` uses). -/
+def vadd (vs : List Vtx) (loc : Nat) (proj sl : List String) : List Vtx × Nat :=
+  match vfind loc sl vs with
+  | some i => (vs, i)
+  | none => (vs ++ [⟨loc, proj, sl⟩], vs.length)
+
+def insertSorted (l : String) : List String → List String
+  | [] => [l]
+  | x :: xs => if l < x then l :: x :: xs else if l = x then x :: xs else x :: insertSorted l xs
+
+/-- sorted list of the distinct members (python: `sorted(set(...))`) -/
+def sortDedup (xs : List String) : List String := xs.foldr insertSorted []
+
+/-- `Operation.get_patches_at_corner`, as a list with `None` removed -/
+def patchesAtCorner (o : Op) (c : Nat) : List String :=
+  let i := c % 4
+  [if c < 4 then o.bottomPatch else o.topPatch, o.sidePatches.getD i none,
+    o.sidePatches.getD ((i + 3) % 4) none].filterMap id
+
+/-- the slave patches of a corner, sorted -/
+def cornerSlaves (slaves : List String) (o : Op) (c : Nat) : List String :=
+  sortDedup ((patchesAtCorner o c).filter (· ∈ slaves))
+
+/-- `Mesh._add_vertices`: the loop over the corners, threaded through the vertex list. -/
+def addVertsAux (slaves : List String) (o : Op) : List Nat → List Vtx → List Vtx × List Nat
+  | [], vs => (vs, [])
+  | c :: rest, vs =>
+      let r := vadd vs (o.corners.getD c 0) (o.cornerProj.getD c []) (cornerSlaves slaves o c)
+      let r2 := addVertsAux slaves o rest r.1
+      (r2.1, r.2 :: r2.2)
+
+def enumFrom {α : Type} (n : Nat) : List α → List (Nat × α)
+  | [] => []
+  | x :: xs => (n, x) :: enumFrom (n + 1) xs
+
+/-- `for corner in range(8)` -/
+def addVerts (slaves : List String) (o : Op) (vs : List Vtx) : List Vtx × List Nat :=
+  addVertsAux slaves o [0, 1, 2, 3, 4, 5, 6, 7] vs
+
+/-! ### edge list -/
+
+def samePair (a b c d : Nat) : Bool := (a == c && b == d) || (a == d && b == c)
+
+/-- `Operation.edges[c1][c2]`: bottom i ↦ (i, i+1 mod 4), top i ↦ (i+4, (i+1 mod 4)+4), side i ↦ (i, i+4). -/
+def opEdge (o : Op) (c1 c2 : Nat) : EdgeData :=
+  let slots : List (Nat × Nat × EdgeData) :=
+    (enumFrom 0 o.bottomEdges).map (fun (i, d) => (i, (i + 1) % 4, d)) ++
+    (enumFrom 0 o.topEdges).map (fun (i, d) => (i + 4, (i + 1) % 4 + 4, d)) ++
+    (enumFrom 0 o.sideEdges).map (fun (i, d) => (i, i + 4, d))
+  match slots.find? (fun s => samePair s.1 s.2.1 c1 c2) with
+  | some s => s.2.2
+  | none => .line
+
+/-- `EdgeList.add`: an existing edge on the same vertex pair wins; a new one is appended if valid. -/
+def eadd (es : List Edge) (v1 v2 : Nat) (d : EdgeData) : List Edge :=
+  if es.any (fun e => samePair e.v1 e.v2 v1 v2) then es
+  else match d with
+    | .line => es
+    | .arc tok => if v1 = v2 then es else es ++ [⟨v1, v2, tok⟩]
+
+/-- `EdgeList.add_from_operation`: the 12 beams in the order of `Frame.get_all_beams` (generated). -/
+def addEdges (es : List Edge) (o : Op) (vi : List Nat) : List Edge :=
+  CBV.Gen.beamOrder.foldl (fun es (c1, c2) => eadd es (vi.getD c1 0) (vi.getD c2 0) (opEdge o c1 c2)) es
+
+/-! ### patch list -/
+
+def Patch.fresh (n : String) : Patch := { name := n, sides := [], kind := "patch", settings := [] }
+
+/-- `PatchList.get(name)` followed by a mutation of the patch: the first entry with that name,
+    or a new entry at the end. -/
+def upsert (ps : List Patch) (n : String) (f : Patch → Patch) : List Patch :=
+  match ps with
+  | [] => [f (Patch.fresh n)]
+  | p :: rest => if p.name = n then f p :: rest else p :: upsert rest n f
+
+def sameSet (a b : List Nat) : Bool := a.all (b.contains ·) && b.all (a.contains ·)
+
+/-- `Patch.add_side`: a side on the same vertices is not added again. -/
+def Patch.addSide (side : List Nat) (p : Patch) : Patch :=
+  if p.sides.any (sameSet · side) then p else { p with sides := p.sides ++ [side] }
+
+/-- `Side(orient, vertices)`: the vertices at `FACE_MAP[orient]` (generated). -/
+def sideVerts (orient : String) (vi : List Nat) : List Nat :=
+  ((CBV.Gen.faceMap.lookup orient).getD []).map (fun c => vi.getD c 0)
+
+/-- `Operation.patch_names`: bottom, top, then the sides in `SIDES_MAP` order. -/
+def patchNames (o : Op) : List (String × String) :=
+  (match o.bottomPatch with | some n => [("bottom", n)] | none => []) ++
+  (match o.topPatch with | some n => [("top", n)] | none => []) ++
+  (enumFrom 0 o.sidePatches).filterMap (fun (i, p) => p.map (fun n => (CBV.Gen.sidesMap.getD i "?", n)))
+
+/-- the (patch name, side) items an operation contributes -/
+def patchItems (o : Op) (vi : List Nat) : List (String × List Nat) :=
+  (patchNames o).map (fun (orient, n) => (n, sideVerts orient vi))
+
+def addItems (ps : List Patch) (items : List (String × List Nat)) : List Patch :=
+  items.foldl (fun ps it => upsert ps it.1 (Patch.addSide it.2)) ps
+
+/-- `PatchList.modify` -/
+def modifyPatch (ps : List Patch) (n kind : String) (settings : Option (List String)) : List Patch :=
+  upsert ps n (fun p => { p with kind := kind, settings := settings.getD p.settings })
+
+/-- `PatchList.clear` (repaired): sides go, entries stay -/
+def clearPatches (ps : List Patch) : List Patch := ps.map (fun p => { p with sides := [] })
+
+/-! ### face list -/
+
+def fadd (fs : List PFace) (side : List Nat) (label : String) : List PFace :=
+  if fs.any (fun f => sameSet f.verts side) then fs else fs ++ [⟨side, label⟩]
+
+/-- `FaceList.add`: the four sides in `SIDES_MAP` order, then bottom, then top. -/
+def faceItems (o : Op) (vi : List Nat) : List (List Nat × String) :=
+  (enumFrom 0 o.sideProj).filterMap (fun (i, p) => p.map (fun l => (sideVerts (CBV.Gen.sidesMap.getD i "?") vi, l))) ++
+  (match o.bottomProj with | some l => [(sideVerts "bottom" vi, l)] | none => []) ++
+  (match o.topProj with | some l => [(sideVerts "top" vi, l)] | none => [])
+
+def addFaces (fs : List PFace) (items : List (List Nat × String)) : List PFace :=
+  items.foldl (fun fs it => fadd fs it.1 it.2) fs
+
+/-! ### Mesh -/
+
+def slavePatches (m : Mesh) : List String := m.merged.map (·.2)
+
+/-- the body of the loop of `Mesh.assemble` for one operation that is not deleted
+    (`slaves` = `patch_list.slave_patches`, which does not change during assembly) -/
+def addOp (slaves : List String) (l : Lists) (o : Op) : Lists :=
+  let r := addVerts slaves o l.verts
+  let vi := r.2
+  { verts := r.1
+    edges := addEdges l.edges o vi
+    blocks := l.blocks ++ [{ opId := o.id, verts := vi, chops := o.chops, zone := o.zone, aspec := [], wspec := [] }]
+    assembled := l.assembled ++ [o.id]
+    patches := addItems l.patches (patchItems o vi)
+    faces := addFaces l.faces (faceItems o vi) }
+
+/-- the loop of `Mesh.assemble`: the depot in order, deleted operations skipped. -/
+def assembleLoop (slaves : List String) (deleted : List Nat) : List Op → Lists → Lists
+  | [], l => l
+  | o :: rest, l => assembleLoop slaves deleted rest (if o.id ∈ deleted then l else addOp slaves l o)
+
+/-- `Mesh.assemble` -/
+def assemble (m : Mesh) : Mesh :=
+  { m with lists := assembleLoop (slavePatches m) m.deleted m.depot m.lists }
+
+/-- `Mesh.clear` (the patch list keeps its entries, see `clearPatches`) -/
+def clear (m : Mesh) : Mesh :=
+  { m with lists := { patches := clearPatches m.lists.patches } }
+
+def isAssembled (m : Mesh) : Bool := !m.lists.verts.isEmpty
+
+def add (m : Mesh) (o : Op) : Mesh := { m with depot := m.depot ++ [o] }
+def delete (m : Mesh) (id : Nat) : Mesh := { m with deleted := id :: m.deleted }
+def mergePatches (m : Mesh) (master slave : String) : Mesh := { m with merged := m.merged ++ [(master, slave)] }
+def setDefault (m : Mesh) (name kind : String) : Mesh := { m with dflt := some (name, kind) }
+
+def modify (m : Mesh) (n kind : String) (settings : Option (List String)) : Mesh :=
+  { m with lists := { m.lists with patches := modifyPatch m.lists.patches n kind settings },
+           modified := if n ∈ m.modified then m.modified else m.modified ++ [n] }
+
+/-- `mesh.vertices[r mod n].move_to(position)`; nothing when there are no vertices. -/
+def moveVertex (m : Mesh) (r loc : Nat) : Mesh :=
+  if m.lists.verts.isEmpty then m
+  else { m with lists := { m.lists with
+           verts := m.lists.verts.modify (r % m.lists.verts.length) (fun v => { v with loc := loc }) } }
+
+def locOf (vs : List Vtx) (i : Nat) : Nat := ((vs[i]?).map (·.loc)).getD 0
+
+/-- the loop of `Mesh.backport`: `op.bottom_face.update(...)`, `op.top_face.update(...)` for every
+    (block, operation it was created from); an operation is an object, so every depot entry with
+    that identity changes. -/
+def backportDepot (vs : List Vtx) : List (Block × Nat) → List Op → List Op
+  | [], depot => depot
+  | (b, id) :: rest, depot =>
+      backportDepot vs rest
+        (depot.map (fun o => if o.id = id then { o with corners := b.verts.map (locOf vs) } else o))
+
+/-- `Mesh.backport`; `none` = RuntimeError (not assembled) -/
+def backport (m : Mesh) : Option Mesh :=
+  if isAssembled m then
+    some (assemble (clear { m with depot := backportDepot m.lists.verts (m.lists.blocks.zip m.lists.assembled) m.depot }))
+  else none
+
+/-! ### grading (count-only, every axis chopped by the user) -/
+
+/-- `axis.wires.reset()` followed by `WireChopManager.grade()` for every axis of a block -/
+def gradeBlock (b : Block) : Block :=
+  { b with aspec := b.chops, wspec := b.chops.map (fun c => [c, c, c, c]) }
+
+/-- `BlockList.grade_blocks` -/
+def gradeBlocks (m : Mesh) : Mesh := { m with lists := { m.lists with blocks := m.lists.blocks.map gradeBlock } }
+
+/-- an axis is defined when all its wire gradings are -/
+def Block.isDefined (b : Block) : Bool :=
+  b.wspec.length == 3 && b.wspec.all (fun ws => ws.length == 4 && ws.all (fun s => !s.isEmpty))
+
+inductive Err where
+  | notAssembled   -- RuntimeError: Cannot grade a mesh before it is assembled
+  | undefined      -- UndefinedGradingsError
+  deriving DecidableEq, Repr
+
+/-! ### rendering -/
+
+def join (sep : String) (xs : List String) : String := sep.intercalate xs
+
+def showNats (xs : List Nat) : String := join "-" (xs.map toString)
+
+def Grading.descr (spec : List Chop) : String :=
+  match spec with
+  | [_] => "1"
+  | _ => "(" ++ join "" (spec.map (fun c => s!"({c.ratio}_{c.count}_1)")) ++ ")"
+
+def specEq (a b : List Chop) : Bool := a == b
+
+/-- `Block.description`: vertices, zone, counts, simple/edge grading -/
+def Block.descr (b : Block) : String :=
+  let counts := b.aspec.map (fun s => (s.map (·.count)).sum)
+  let simple := b.wspec.all (fun ws => match ws with | [] => true | w :: rest => rest.all (specEq · w))
+  let gr :=
+    if simple then "simple," ++ join "," (b.wspec.map (fun ws => Grading.descr (ws.headD [])))
+    else "edge," ++ join "," (b.wspec.map (fun ws => join "," (ws.map Grading.descr)))
+  s!"{showNats b.verts}:{b.zone}:{showNats counts}:{gr}"
+
+def Vtx.descr (v : Vtx) : String :=
+  if v.proj.isEmpty then toString v.loc else s!"{v.loc}:{join "+" v.proj}"
+
+def Edge.descr (e : Edge) : String := s!"{min e.v1 e.v2}-{max e.v1 e.v2}:{e.tok}"
+
+def PFace.descr (f : PFace) : String := s!"{showNats f.verts}:{f.label}"
+
+def Patch.descr (p : Patch) : String :=
+  s!"{p.name}:{p.kind}:{join "|" p.settings}:{join "," (p.sides.map showNats)}"
+
+/-- what `Mesh.write` puts into the file, section by section -/
+def render (m : Mesh) : String :=
+  let pats := m.lists.patches.filter (fun p => !(p.sides.isEmpty && !(m.modified.contains p.name)))
+  let dflt := match m.dflt with | some (n, k) => s!"{n}:{k}" | none => ""
+  "V[" ++ join ";" (m.lists.verts.map Vtx.descr) ++ "]B[" ++ join ";" (m.lists.blocks.map Block.descr) ++
+  "]E[" ++ join ";" (m.lists.edges.map Edge.descr) ++ "]F[" ++ join ";" (m.lists.faces.map PFace.descr) ++
+  "]P[" ++ join ";" (pats.map Patch.descr) ++ "]D[" ++ dflt ++
+  "]M[" ++ join ";" (m.merged.map (fun p => s!"{p.1}-{p.2}")) ++ "]"
+
+/-- `Mesh.write`: assemble when needed, grade, render.  Returns the new state and the file or error. -/
+def write (m : Mesh) : Mesh × Except Err String :=
+  let m1 := if isAssembled m then m else assemble m
+  if !isAssembled m1 then (m1, .error .notAssembled)
+  else
+    let m2 := gradeBlocks m1
+    if m2.lists.blocks.all Block.isDefined then (m2, .ok (render m2)) else (m2, .error .undefined)
+
+/-- the text of the file `write` produces (or the error) -/
+def written (m : Mesh) : Except Err String := (write m).2
+
+/-! ### histories -/
+
+inductive Step where
+  | add (o : Op)
+  | readd (id : Nat)   -- `mesh.add(op)` for an object that is in the depot already
+  | delete (id : Nat)
+  | assemble
+  | clear
+  | backport
+  | move (r loc : Nat)
+  | modify (n kind : String) (settings : Option (List String))
+  | setDefault (n kind : String)
+  | merge (master slave : String)
+  | write
+  deriving Repr
+
+/-- one call; a rejected call (backport of a mesh that is not assembled) leaves the state alone -/
+def step (m : Mesh) : Step → Mesh
+  | .add o => add m o
+  | .readd id => match m.depot.find? (fun o => o.id = id) with
+      | some o => add m o
+      | none => m
+  | .delete id => delete m id
+  | .assemble => assemble m
+  | .clear => clear m
+  | .backport => (backport m).getD m
+  | .move r loc => moveVertex m r loc
+  | .modify n k s => modify m n k s
+  | .setDefault n k => setDefault m n k
+  | .merge a b => mergePatches m a b
+  | .write => (write m).1
+
+def run (m : Mesh) (h : List Step) : Mesh := h.foldl step m
+
+/-! ### line protocol -/
+
+def optStr (s : String) : Option String := if s = "-" then none else some s
+
+def parseOptList (s : String) : List (Option String) := (s.splitOn ",").map optStr
+
+def parseLabels (s : String) : List String := if s = "-" then [] else s.splitOn "+"
+
+def parseEdge (s : String) : EdgeData := if s = "-" then .line else .arc s
+
+def parseChops? (s : String) : Option (List Chop) :=
+  if s = "-" then some [] else
+    (s.splitOn "+").mapM (fun c => match c.splitOn "x" with
+      | [r, n] => (n.toNat?).map (fun n => ⟨r, n⟩)
+      | _ => none)
+
+/-- `add!id!c0,..,c7!bp,tp,s0,s1,s2,s3!bj,tj,j0,j1,j2,j3!cp0,..,cp7!e0,..,e11!ch0,ch1,ch2!zone` -/
+def parseOp? (f : List String) : Option Op :=
+  match f with
+  | [id, cs, ps, js, cps, es, chs, zone] => do
+      let id ← id.toNat?
+      let cs ← (cs.splitOn ",").mapM String.toNat?
+      if cs.length ≠ 8 then none
+      let ps := parseOptList ps
+      let js := parseOptList js
+      if ps.length ≠ 6 || js.length ≠ 6 then none
+      let cps := (cps.splitOn ",").map parseLabels
+      if cps.length ≠ 8 then none
+      let es := (es.splitOn ",").map parseEdge
+      if es.length ≠ 12 then none
+      let chs ← (chs.splitOn ",").mapM parseChops?
+      if chs.length ≠ 3 then none
+      some { id := id, corners := cs,
+             bottomPatch := ps.getD 0 none, topPatch := ps.getD 1 none, sidePatches := ps.drop 2,
+             bottomProj := js.getD 0 none, topProj := js.getD 1 none, sideProj := js.drop 2,
+             cornerProj := cps, bottomEdges := es.take 4, topEdges := (es.drop 4).take 4, sideEdges := es.drop 8,
+             chops := chs, zone := if zone = "-" then "" else zone }
+  | _ => none
+
+def parseStep? (s : String) : Option Step :=
+  match s.splitOn "!" with
+  | "add" :: rest => (parseOp? rest).map Step.add
+  | ["again", id] => (id.toNat?).map Step.readd
+  | ["del", id] => (id.toNat?).map Step.delete
+  | ["asm"] => some .assemble
+  | ["clr"] => some .clear
+  | ["bkp"] => some .backport
+  | ["mv", r, l] => do some (.move (← r.toNat?) (← l.toNat?))
+  | ["mod", n, k, st] => some (.modify n k (if st = "-" then none else if st = "0" then some [] else some (st.splitOn "|")))
+  | ["def", n, k] => some (.setDefault n k)
+  | ["mrg", a, b] => some (.merge a b)
+  | ["wr"] => some .write
+  | _ => none
+
+def showDepot (m : Mesh) : String :=
+  join ";" (m.depot.map (fun o => s!"{o.id}={join "," (o.corners.map toString)}"))
+
+/-- what the harness can observe of a call -/
+def observe (m : Mesh) : Step → String
+  | .write => match (write m).2 with
+      | .ok t => "ok:" ++ t
+      | .error .notAssembled => "err:notAssembled"
+      | .error .undefined => "err:undefined"
+  | .backport => match backport m with
+      | some m' => "ok:" ++ showDepot m'
+      | none => "err:notAssembled"
+  | _ => "."
+
+/-- `c12.hist step step …` → the observations of all calls, separated by `#` -/
+def handleHist (args : List String) : Option String := do
+  let steps ← args.mapM parseStep?
+  let r := steps.foldl (fun (acc : Mesh × List String) s => (step acc.1 s, observe acc.1 s :: acc.2)) ({}, [])
+  some (join "#" r.2.reverse)
+
+def handle (op : String) (args : List String) : Option String :=
+  match op with
+  | "c12.hist" => handleHist args
+  | _ => none
 
 end CBV.C12
